@@ -241,6 +241,17 @@ class BStr:
             skip = z3.simplify(z3.If(here, I(len(old) - 1), z3.If(skip > 0, skip - 1, I(0))))
         return out
 
+    def replace_first(self, old: str, new: str) -> "BStr":
+        """str.replace(old, new, 1) for constant, non-empty `old`."""
+        p = BStr.const(old)
+        q = BStr.const(new)
+        idx = I(-1)
+        for i in reversed(range(self.cap)):
+            idx = z3.If(self.match_at(I(i), p), I(i), idx)
+        idx = z3.simplify(idx)
+        replaced = self.slice(I(0), idx).concat(q).concat(self.slice(idx + len(old), self.ln))
+        return ite_str(idx >= 0, replaced, self)
+
     def __repr__(self) -> str:
         return f"BStr(cap={self.cap})"
 
